@@ -244,7 +244,25 @@ func FaultTable() []FaultRow {
 			return nil
 		}
 		a := Pick(g.R, presentIn(me, g.used()))
-		return &Op{K: "Exchange", E: entP(e), Add: []int{a}, Rem: []int{a}}
+		op := &Op{K: "Exchange", E: entP(e), Add: []int{a}, Rem: []int{a}}
+		// the offending ID may be accompanied by otherwise legal additions and removals, in any position
+		if ab := absentIn(g, me, g.nonRels()); len(ab) > 0 && g.R.Chance(0.6) {
+			b := Pick(g.R, ab)
+			if g.R.Chance(0.5) {
+				op.Add = []int{b, a}
+			} else {
+				op.Add = []int{a, b}
+			}
+		}
+		if pr := minus(presentIn(me, g.nonRels()), func(x int) bool { return x == a }); len(pr) > 0 && g.R.Chance(0.5) {
+			c := Pick(g.R, pr)
+			if g.R.Chance(0.5) {
+				op.Rem = []int{a, c}
+			} else {
+				op.Rem = []int{c, a}
+			}
+		}
+		return op
 	})
 
 	// ---- second relation component
